@@ -54,8 +54,40 @@ F25_CASE = {"property": ID, "mode": "until", "plan": [], "config": {"waitq": "he
                      {"op": "eternity"}]}]}]}}
 
 
+def _probe_connective_late():
+    """F36: `until(a & b)` is served by a helper activity that needs a turn of its own: the body
+    passes more suspension points of the time step in which the notification became true than
+    with the atom `until(b)` under the very same schedule."""
+    from .. import bind_repo
+    usim = bind_repo()
+
+    def passed_with(connective):
+        passed = []
+
+        async def setter(a, b):
+            await (usim.time + 1)
+            await a.set()
+            await b.set()
+
+        async def main():
+            a, b = usim.Flag(), usim.Flag()
+            async with usim.Scope() as scope:
+                scope.do(setter(a, b))
+                async with usim.until((a & b) if connective else b):
+                    await (usim.time + 1)
+                    for _ in range(12):                  # bounded: never starves the clock
+                        if a and b:
+                            passed.append(usim.time.now)  # holds, and we are still running
+                        await usim.instant
+        usim.run(main())
+        return len(passed)
+    return passed_with(True) > passed_with(False)
+
+
 def probe_finding(finding):
     """Re-demonstrate a listed finding on the current tree (True if it still shows)."""
+    if finding["id"] == "F36":
+        return _probe_connective_late()
     if finding["id"] != "F25":
         return False
     out = run_case(copy.deepcopy(F25_CASE))
